@@ -84,6 +84,11 @@ static void t_copy(const char *s) {
         hm_free(src);
         /* overlapping source: copy a string onto itself shifted by one */
         if (n >= 2 && size == n + 1) { char *o = hm_alloc(n + 2); memcpy(o, s, n + 1); qstrcpy(o, n + 1, o + 1); if (strcmp(o, s + 1)) bad("qstrcpy", "overlap", s, "overlapping copy gives %s", vf_hex(o, strlen(o))); hm_free(o); TICK("qstrcpy"); }
+        /* ... and the other direction (documented: "allows overlap between src and dst"): destination 1..3 bytes above the source inside one buffer */
+        if (n >= 2 && size == n + 1) for (size_t sh = 1; sh <= 3; sh++) { char *o = hm_alloc(n + 1 + sh + 1); memcpy(o, s, n + 1); memset(o + n + 1, 0x5A, sh + 1);
+            qstrcpy(o + sh, n + 1, o); if (strcmp(o + sh, s) || (unsigned char)o[n + 1 + sh] != 0x5A) bad("qstrcpy", "overlap", s, "copy to src+%zu gives %s", sh, vf_hex(o + sh, strlen(o + sh))); hm_free(o); TICK("qstrcpy");
+            o = hm_alloc(n + 1 + sh + 1); memcpy(o, s, n + 1); memset(o + n + 1, 0x5A, sh + 1); size_t nb = n - 1;
+            qstrncpy(o + sh, n + 1, o, nb); if (strlen(o + sh) != nb || memcmp(o + sh, s, nb)) bad("qstrncpy", "overlap", s, "copy of %zu bytes to src+%zu gives %s", nb, sh, vf_hex(o + sh, strlen(o + sh))); hm_free(o); TICK("qstrncpy"); }
         hm_free(blk);
     }
 }
